@@ -4,6 +4,7 @@
 //! Each entry contains the shard name and the update data.
 
 use super::batch::Update;
+use super::lossless;
 use crate::storage::{StorageError, StorageResult};
 use serde::{Deserialize, Serialize};
 use std::fs::{self, File, OpenOptions};
@@ -17,6 +18,61 @@ pub struct WalEntry {
     pub shard: String,
     /// The update
     pub update: Update,
+}
+
+/// WAL entry whose tuple cannot be represented exactly in JSON (non-finite floats have no JSON
+/// representation and would make the line unreadable on recovery). The tuple is stored in the
+/// lossless byte encoding, hex-encoded to keep the WAL line-oriented.
+#[derive(Debug, Clone, Serialize, Deserialize)]
+struct LosslessWalEntry {
+    shard: String,
+    time: u64,
+    diff: i64,
+    /// Hex of `lossless::encode_tuple(data)`
+    data_lossless: String,
+}
+
+/// Serialize an entry as a WAL line payload that is guaranteed to read back exactly.
+fn encode_entry(entry: &WalEntry) -> StorageResult<String> {
+    let json = serde_json::to_string(entry)
+        .map_err(|e| StorageError::Other(format!("WAL serialization failed: {e}")))?;
+    let exact = serde_json::from_str::<WalEntry>(&json).is_ok_and(|back| {
+        back.shard == entry.shard
+            && back.update.time == entry.update.time
+            && back.update.diff == entry.update.diff
+            && lossless::same_bits(&back.update.data, &entry.update.data)
+    });
+    if exact {
+        return Ok(json);
+    }
+    let fallback = LosslessWalEntry {
+        shard: entry.shard.clone(),
+        time: entry.update.time,
+        diff: entry.update.diff,
+        data_lossless: lossless::to_hex(&lossless::encode_tuple(&entry.update.data)),
+    };
+    serde_json::to_string(&fallback)
+        .map_err(|e| StorageError::Other(format!("WAL serialization failed: {e}")))
+}
+
+/// Parse a WAL line payload written by [`encode_entry`].
+fn decode_entry(json_str: &str) -> Result<WalEntry, String> {
+    match serde_json::from_str::<WalEntry>(json_str) {
+        Ok(entry) => Ok(entry),
+        Err(primary) => {
+            let fallback: LosslessWalEntry =
+                serde_json::from_str(json_str).map_err(|_| primary.to_string())?;
+            let data = lossless::decode_tuple(&lossless::from_hex(&fallback.data_lossless)?)?;
+            Ok(WalEntry {
+                shard: fallback.shard,
+                update: Update {
+                    data,
+                    time: fallback.time,
+                    diff: fallback.diff,
+                },
+            })
+        }
+    }
 }
 
 /// Write-Ahead Log writer
@@ -94,9 +150,8 @@ impl PersistWal {
             update: update.clone(),
         };
 
+        let json = encode_entry(&entry)?;
         let writer = self.ensure_writer()?;
-        let json = serde_json::to_string(&entry)
-            .map_err(|e| StorageError::Other(format!("WAL serialization failed: {e}")))?;
 
         // Write format: "<crc32hex>:<json>"
         let checksum = Self::crc32_hex(json.as_bytes());
@@ -200,7 +255,7 @@ impl PersistWal {
                 }
             }
 
-            match serde_json::from_str::<WalEntry>(json_str) {
+            match decode_entry(json_str) {
                 Ok(entry) => entries.push(entry),
                 Err(e) => {
                     tracing::warn!(
@@ -299,8 +354,7 @@ impl PersistWal {
                 .open(&new_file)?;
             let mut writer = BufWriter::new(file);
             for entry in &surviving {
-                let json = serde_json::to_string(entry)
-                    .map_err(|e| StorageError::Other(format!("WAL serialization failed: {e}")))?;
+                let json = encode_entry(entry)?;
                 let checksum = Self::crc32_hex(json.as_bytes());
                 writeln!(writer, "{checksum}:{json}")?;
             }
@@ -353,6 +407,31 @@ mod tests {
     use super::*;
     use crate::value::Tuple;
     use tempfile::TempDir;
+
+    #[test]
+    fn test_wal_preserves_non_finite_floats_and_value_kinds() {
+        use crate::value::Value;
+        let temp = TempDir::new().unwrap();
+        let mut wal = PersistWal::new(temp.path().to_path_buf()).unwrap();
+        let tuple = Tuple::new(vec![
+            Value::Float64(f64::NAN),
+            Value::Float64(f64::NEG_INFINITY),
+            Value::Timestamp(7),
+            Value::Null,
+        ]);
+        wal.append("db:r", &Update::insert(tuple.clone(), 3)).unwrap();
+        wal.append("db:s", &Update::insert(Tuple::from_pair(1, 2), 4))
+            .unwrap();
+        let entries = wal.read_all().unwrap();
+        assert_eq!(entries.len(), 2);
+        assert!(lossless::same_bits(&entries[0].update.data, &tuple));
+        assert_eq!(entries[0].update.time, 3);
+        // rewriting the WAL keeps the lossless entry readable
+        wal.remove_shard_entries("db:s").unwrap();
+        let entries = wal.read_all().unwrap();
+        assert_eq!(entries.len(), 1);
+        assert!(lossless::same_bits(&entries[0].update.data, &tuple));
+    }
 
     #[test]
     fn test_wal_append_read() {
